@@ -16,12 +16,13 @@ type ledger struct {
 	byNm  map[string]map[string]uint32
 	byID  map[string]map[uint32]string
 	uuids map[string]string // uuid -> first session id seen
+	rids  map[uint32]int    // request id -> number of answers seen (C04: exactly one, at the requester only)
 	viol  []Violation
 }
 
 func newLedger() *ledger {
 	return &ledger{pids: map[string]map[uint32]string{}, eids: map[string]map[uint32]string{}, aids: map[string]map[uint32]string{},
-		byNm: map[string]map[string]uint32{}, byID: map[string]map[uint32]string{}, uuids: map[string]string{}}
+		byNm: map[string]map[string]uint32{}, byID: map[string]map[uint32]string{}, uuids: map[string]string{}, rids: map[uint32]int{}}
 }
 
 func (l *ledger) v(prop, rule, format string, a ...any) {
@@ -36,6 +37,21 @@ func sub[K comparable, V any](m map[string]map[K]V, k string) map[K]V {
 }
 
 func (l *ledger) observe(c *Client, m *RecvMsg) {
+	// request ids are allocated by the harness as (connection index + 1) * 100000 + n: an answer
+	// carrying one must arrive at that connection, once. (Type 38 is a ping the server sends
+	// with an id of its own; 39/0 answering a server ping id are outside this scheme.)
+	if m.ReqID >= 100000 && m.Type != 38 && c.ridBase > 0 {
+		owner := int(m.ReqID / 100000)
+		if owner != c.ridBase {
+			l.v("C04", "answer-wrong-recipient", "%s received a message (type %d) carrying request id %d, which belongs to connection index %d", c.Label, m.Type, m.ReqID, owner-1)
+			l.v("C03", "foreign-effect", "%s received a message (type %d) carrying request id %d of another connection", c.Label, m.Type, m.ReqID)
+		} else {
+			l.rids[m.ReqID]++
+			if l.rids[m.ReqID] == 2 && m.Type != 2 && m.Type != 100 && m.Type != 200 {
+				l.v("C04", "answer-duplicate", "%s received a second message (type %d) carrying request id %d", c.Label, m.Type, m.ReqID)
+			}
+		}
+	}
 	switch x := m.Msg.(type) {
 	case *hagallpb.ParticipantJoinResponse:
 		ps := sub(l.pids, x.SessionUuid)
